@@ -5,7 +5,11 @@
 // legal fragment shapes (second family, gen/frag/reshape.go); three oracles observe DecodeFile/DecodeFileSR, the default
 // segment-mode Encode/EncodeSW, and UpdateSidx (+ the add-sidx binary). All
 // positions and index fields are read from the produced bytes with
-// ref/boxwalk and ref/frag.
+// ref/boxwalk and ref/frag. Two more families (families.go) derive from these
+// files: unused senc/saiz/saio boxes inserted into the trafs
+// (gen/frag/encboxes.go; add-sidx also runs with -removeEnc), and files
+// stretched to several GiB by holes in their mdat boxes, decoded lazily
+// through a virtual ReadSeeker (gen/frag/stretch.go).
 package c12
 
 import (
@@ -34,7 +38,8 @@ func init() {
 			"(inside the fragment via AddEmsg or at file level); idx%8==7 additionally places prft/free/skip/uuid/unknown boxes in and between fragments (weak oracle only); " +
 			"idx%8 in {5,6} draws layouts with exactly one delimiter mechanism (5: without emsg) so that the strong form is exercised often. " +
 			"Each file is decoded with a drawn flag set {0, DecISMFlag, DecStartOnMoof, both} through DecodeFile and DecodeFileSR (with both flags a top-level sidx or an mfra in force keeps precedence over start-on-moof, as the flag's doc comment says). " +
-			"Oracle 1 (grouping): weak form always; strong form (segment boundaries exactly at the ground-truth delimiters) only when a single mechanism is present. " +
+			"Oracle 1 (grouping): weak form always; strong form (segment boundaries exactly at the ground-truth delimiters) only when a single mechanism is present; emsg boxes are not a mechanism: sidx- and tfra-delimited files with emsg boxes in front of the moofs stay in the strong form " +
+			"(a tfra entry addresses the moof: the segment starts there and the emsg boxes in front stay with the fragment before; only the first segment starts at its emsg). " +
 			"Oracle 2: default segment-mode Encode and EncodeSW keep ftyp, moov and every emsg/moof/mdat byte-identical and in order. " +
 			"Oracle 3: UpdateSidx(addIfNotExists, nonZeroEPT drawn) then Encode (segment mode, and box-tree mode when the top level holds only boxes that segment mode writes too), and for 1 file in 4 the add-sidx binary: the first top-level sidx read from the output bytes tiles the media. " +
 			"Files with a 64-bit mdat header (and 1 in 8 of the others) are additionally decoded with DecodeFile + DecModeLazyMdat: oracle 1 against the ground truth, and the partition must equal the non-lazy one (oracles 2/3 do not apply: a lazy mdat is written without payload). " +
@@ -44,9 +49,18 @@ func init() {
 			"run data contiguous in run order | permuted | separated by filler (also in front of the first and after the last run) | both, one data_offset per run (1 in 3 of the runs that directly follow their predecessor in the same traf carry none); 8- or 16-byte mdat header; " +
 			"sidx references/first_offset and tfra moof offsets re-pointed to the moved boxes. The rewritten file is expanded with ref/frag and compared, fragment by fragment and track by track, with the history (payload bytes, size, duration, flags, cto, decode time; data inside the fragment's own mdat): a mismatch is inconclusive. " +
 			"The same readers, flags (redrawn for 1 in 3) and oracles 1-3 run on it; oracle 3's durations (both families) come from the history and are cross-checked against ref/frag's expansion of the moofs inside each referenced byte range of the output (disagreement = inconclusive). " +
-			"Non-trivial = decoded by at least one reader and holding >= 2 fragments (first family) / at least one rewritten fragment (second family); distinct_nontrivial counts distinct (file, flags).",
+			"Third family, 'encboxes' (every case; base = the built or the reshaped file): gen/frag.AddEncBoxes inserts, byte by byte, syntactically valid sample-encryption boxes into the trafs of 5 of 6 fragments (3 of 4 trafs each): senc or its PIFF uuid form (8/16-byte IVs, with/without subsample entries), " +
+			"saiz (default size or per-sample table, with/without aux_info_type) and saio v0/v1 pointing at the senc's first IV (1 in 6 without saiz/saio), before the first trun or after the last child, senc first or last; the sample entries stay clear (the boxes are unused, as in a decrypted file), " +
+			"every trun data_offset of the moof, sidx references and tfra offsets are fixed up and the file is verified against the history with ref/frag. The same readers and oracles 1-3 run on it (flags mostly without DecISMFlag), and the add-sidx binary runs on 3 of 5 of these files, 3 in 4 of the runs with -removeEnc: " +
+			"oracle 3 on the tool's output (reference count = segments, references contiguous, each at the first byte of its segment in the output, ending at the end of the media, durations/EPT); what -removeEnc removed and whether the samples are still addressed correctly is counted. " +
+			"Fourth family, 'stretched' (every case; base = the built or the reshaped file): gen/frag.Stretch gives one mdat of all / of a random half of the history segments a trailing hole of 1..2 GiB (files without any sidx and a 64-bit mdat header: also 2^32-16..5 GiB), 1 in 3 of the files with >= 3 holes tuned so that a later segment starts at 2^32+{-1,0,1,8} (absolute, or after the first sidx's anchor); " +
+			"mdat size fields, sidx referenced sizes/first_offset and tfra moof offsets are fixed up (holes that a 31-bit referenced_size, a v0 first_offset, a v0 tfra offset or a compact mdat header cannot hold are dropped). The 1..21 GiB file exists only as a virtual io.ReadSeeker (bytes + zero holes) given to DecodeFile + DecModeLazyMdat with the case's flags: " +
+			"oracle 1 (weak + strong) against the moved ground truth; the partition must equal that of the unstretched file under the same flags; then UpdateSidx(addIfNotExists 7 in 8, nonZeroEPT drawn) and the filled sidx box, encoded alone and read back with ref/frag, is compared with the construction: reference count = decoded segments, " +
+			"referenced_size k = distance between the ground-truth starts of decoded segments k and k+1 (files without prft/free/... boxes), first_offset = size of the other top-level sidx boxes, durations/timescale/EPT from the history; a decoded segment of 2^31 bytes or more must make UpdateSidx fail. " +
+			"Non-trivial = decoded by at least one reader and holding >= 2 fragments (first family) / at least one rewritten fragment (second) / at least one traf with inserted boxes (third) / decoded with the weak form holding (fourth); distinct_nontrivial counts distinct (file, flags).",
 		Assumptions: []string{
-			"mixed delimiter layouts (styp on some segments, styp + flag, sidx + styp, segment-level sidx without styp, mfra entries + emsg ...) get only the weak grouping form: the statement lists the mechanisms as alternatives",
+			"mixed delimiter layouts (styp on some segments, styp + flag, sidx + styp, segment-level sidx without styp, mfra + styp ...) get only the weak grouping form: the statement lists the mechanisms as alternatives; an emsg is no delimiter mechanism",
+			"with the mfra mechanism a segment starts at the moof its tfra entry addresses; emsg boxes directly in front of that moof are kept (in file order) at the end of the fragment before, except in front of the first moof of the file",
 			"the mfra mechanism is in force only with DecISMFlag through DecodeFile (DecodeFileSR cannot seek and documents nothing else); counted as ism_flag_without_effect otherwise",
 			"'its segment' in the index clause is the segment partition the decoder produced (checked separately by oracle 1)",
 			"prft/free/uuid/unknown top-level boxes are outside Init/segments and documented to be dropped by segment-mode encode: oracle 2 compares ftyp/moov/emsg/moof/mdat only",
@@ -55,6 +69,8 @@ func init() {
 			"reshaped family: 'byte-identically' covers the decoded data_offset fields of every trun, whatever the number of truns/trafs and wherever the data lies in the mdat (filler bytes are legal: 8.8.8 only requires the offsets to point at the data); the mdat header form (8/16 bytes) is part of the fragment's bytes",
 			"reshaped family: with several trafs of the reference track in one moof, 'the summed sample durations of the reference track in that segment' sums all of them, and the first presentation time (EPT clause) is that of the first sample of the first of them",
 			"tfra traf_number/trun_number/sample_number are not re-pointed by the rewriter (the decoder uses moof_offset only)",
+			"encboxes family: senc/saiz/saio in a traf whose sample entry is clear are legal unused boxes; byte-identical re-encoding covers them; with -removeEnc 'the media' is what the tool writes (the index clauses are checked on the output bytes); the per-segment sidx boxes of the input are not the index and may go stale",
+			"stretched family: zero filler after the last sample byte of an mdat is legal; the written media of a lazily decoded file cannot be produced, so the index clauses are checked on the sidx box UpdateSidx filled (sizes against the input's segment extents, which segment mode reproduces when no prft/free/... box is dropped); a segment that no 31-bit referenced_size can hold must be refused with an error",
 		},
 		NumCases: func(env *runner.Env) int {
 			if env.Tier == "thorough" {
@@ -185,6 +201,8 @@ type detail struct {
 	What    string           `json:"what"`
 	Pieces  []string         `json:"ground_truth_boxes,omitempty"`
 	FileHex string           `json:"file_hex,omitempty"`
+	// stretched family: the file is SmallHex (when small enough) with Holes zero runs inserted
+	Holes []genfrag.Hole `json:"holes,omitempty"`
 }
 
 type env struct {
@@ -204,22 +222,45 @@ type env struct {
 	// keyRefTrafs: the finding depends only on the number of trafs of the reference track (EPT)
 	keyRefTrafs bool
 	lazy        bool // DecodeFile with DecModeLazyMdat
+	// fam names the family in finding keys ("" first/reshaped, "encboxes", "stretched")
+	fam string
+	// virt, when set, is the virtual multi-GiB file e.b describes (e.b.Bytes is nil)
+	virt *genfrag.Stretched
+	// segStartGT: ground-truth offset of the first box of each decoded segment (set by oracle1)
+	segStartGT []int
+	// removeEnc: the add-sidx tool runs with -removeEnc
+	removeEnc bool
 }
 
-func (e *env) viol(key, what string) {
+func (e *env) viol(key, what string) { e.violKey(key+"/"+e.cause(), what) }
+
+// violKey reports under exactly the given key (no layout class appended).
+func (e *env) violKey(key, what string) {
 	d := detail{History: e.h, Flags: uint32(e.flags), Reader: e.reader, What: what}
 	for _, p := range e.b.Pieces {
 		d.Pieces = append(d.Pieces, fmt.Sprintf("%s@%d+%d %s seg%d frag%d", p.Type, p.Start, p.Size, p.Role, p.Seg, p.Frag))
 	}
-	if len(e.b.Bytes) <= 5000 {
+	if e.virt != nil {
+		d.Holes = e.virt.Holes
+		if len(e.virt.Small) <= 5000 {
+			d.FileHex = fmt.Sprintf("%x", e.virt.Small)
+		}
+	} else if len(e.b.Bytes) <= 5000 {
 		d.FileHex = fmt.Sprintf("%x", e.b.Bytes)
 	}
-	e.c.Violation(key+"/"+e.cause(), fmt.Sprintf("%s flags=%d layout %s: %s", e.reader, e.flags, e.lay.class, what), d)
+	e.c.Violation(key, fmt.Sprintf("%s flags=%d layout %s: %s", e.reader, e.flags, e.lay.class, what), d)
 }
 
 // cause is the coarse layout class used in finding keys: decode flag and emsg
 // presence (the strong-form keys carry their mechanism themselves).
 func (e *env) cause() string {
+	if e.fam != "" {
+		return e.fam + "/" + e.cause0()
+	}
+	return e.cause0()
+}
+
+func (e *env) cause0() string {
 	fl := map[mp4.DecFileFlags]string{0: "noflag", mp4.DecISMFlag: "ism", mp4.DecStartOnMoof: "som", mp4.DecISMFlag | mp4.DecStartOnMoof: "ism+som"}[e.flags]
 	if e.shapes != nil && e.keyFrags != nil {
 		// reshaped family, finding about particular fragments: their shape class
@@ -280,7 +321,9 @@ func (e *env) shapeClass(frs []int) string {
 
 func (e *env) decode() (f *mp4.File, err error, pi *runner.PanicInfo) {
 	pi = e.c.Guard(func() {
-		if e.lazy {
+		if e.virt != nil {
+			f, err = mp4.DecodeFile(e.virt.Reader(), mp4.WithDecodeFlags(e.flags), mp4.WithDecodeMode(mp4.DecModeLazyMdat))
+		} else if e.lazy {
 			f, err = mp4.DecodeFile(bytes.NewReader(e.b.Bytes), mp4.WithDecodeFlags(e.flags), mp4.WithDecodeMode(mp4.DecModeLazyMdat))
 		} else if e.reader == "DecodeFile" {
 			f, err = mp4.DecodeFile(bytes.NewReader(e.b.Bytes), mp4.WithDecodeFlags(e.flags))
@@ -315,7 +358,7 @@ func run(c *runner.Ctx, idx int) {
 		}
 	}
 	o3add, o3nz, tool := c.Rand.Chance(3, 4), c.Rand.Bool(), c.Rand.Chance(1, 4)
-	decoded := runFile(c, h, b, nil, flags, o3add, o3nz, tool)
+	decoded := runFile(c, h, b, fileOpts{flags: flags, o3add: o3add, o3nz: o3nz, tool: tool})
 	if decoded && len(b.FragsInFile()) >= 2 {
 		c.Nontrivial(runner.Hash64(b.Bytes, []byte{byte(flags)}))
 	}
@@ -328,11 +371,35 @@ func run(c *runner.Ctx, idx int) {
 	}
 	// second family: the same history, fragments rewritten on the byte level (all draws
 	// come after those of the first family)
-	runReshaped(c, h, b, flags)
+	nb, shapes := runReshaped(c, h, b, flags)
+	// third family: sample-encryption boxes in the trafs of the built or the reshaped file
+	// (all draws after those of the first two families)
+	base, baseShapes := b, []genfrag.FragShape(nil)
+	if nb != nil && c.Rand.Bool() {
+		base, baseShapes = nb, shapes
+	}
+	runEncBoxes(c, h, base, baseShapes, flags)
+	// fourth family: the built or the reshaped file stretched to several GiB
+	base, baseShapes = b, nil
+	if nb != nil && c.Rand.Bool() {
+		base, baseShapes = nb, shapes
+	}
+	runStretched(c, h, base, baseShapes, flags)
+}
+
+// fileOpts are the per-file draws of runFile.
+type fileOpts struct {
+	shapes      []genfrag.FragShape // nil for a file as built
+	flags       mp4.DecFileFlags
+	o3add, o3nz bool
+	tool        bool   // run the add-sidx binary too
+	removeEnc   bool   // ... with -removeEnc
+	fam         string // family name in finding keys
 }
 
 // runFile runs the readers and oracles on one file; shapes is nil for a file as built.
-func runFile(c *runner.Ctx, h *genfrag.History, b *genfrag.Built, shapes []genfrag.FragShape, flags mp4.DecFileFlags, o3add, o3nz, tool bool) (decoded bool) {
+func runFile(c *runner.Ctx, h *genfrag.History, b *genfrag.Built, o fileOpts) (decoded bool) {
+	shapes, flags, o3add, o3nz, tool := o.shapes, o.flags, o.o3add, o.o3nz, o.tool
 	// lazy mdat decoding as one more decode path: always when some mdat has a 64-bit header
 	large := false
 	for _, p := range b.Pieces {
@@ -343,7 +410,7 @@ func runFile(c *runner.Ctx, h *genfrag.History, b *genfrag.Built, shapes []genfr
 	lazy := large || c.Rand.Chance(1, 8)
 	var partDF partition
 	for _, reader := range []string{"DecodeFile", "DecodeFileSR", "DecodeFile-lazy"} {
-		e := &env{c: c, h: h, b: b, flags: flags, reader: reader, shapes: shapes}
+		e := &env{c: c, h: h, b: b, flags: flags, reader: reader, shapes: shapes, fam: o.fam, removeEnc: o.removeEnc}
 		if reader == "DecodeFile-lazy" {
 			if !lazy {
 				continue
@@ -419,12 +486,12 @@ func trafPattern(s genfrag.FragShape) string {
 // runReshaped is the second family: the fragments of the built file are rewritten
 // byte by byte into equivalent legal shapes (gen/frag.Reshape) and the same readers
 // and oracles run on the result.
-func runReshaped(c *runner.Ctx, h *genfrag.History, b *genfrag.Built, flags mp4.DecFileFlags) {
+func runReshaped(c *runner.Ctx, h *genfrag.History, b *genfrag.Built, flags mp4.DecFileFlags) (*genfrag.Built, []genfrag.FragShape) {
 	r := c.Rand
 	nb, shapes, err := genfrag.Reshape(b, r)
 	if err != nil {
 		c.Inconclusive("reshaped family: the rewritten file does not expand to the history's samples (generator matter): " + short(err.Error()))
-		return
+		return nil, nil
 	}
 	if r.Chance(1, 3) {
 		flags = mp4.DecFileFlags(r.PickInt(0, 0, int(mp4.DecISMFlag), int(mp4.DecStartOnMoof), int(mp4.DecISMFlag|mp4.DecStartOnMoof)))
@@ -477,9 +544,9 @@ func runReshaped(c *runner.Ctx, h *genfrag.History, b *genfrag.Built, flags mp4.
 	}
 	if rewritten == 0 {
 		c.Count("reshaped_files_without_rewritten_fragment", 1)
-		return
+		return nil, nil
 	}
-	decoded := runFile(c, h, nb, shapes, flags, o3add, o3nz, tool)
+	decoded := runFile(c, h, nb, fileOpts{shapes: shapes, flags: flags, o3add: o3add, o3nz: o3nz, tool: tool})
 	if decoded {
 		c.Nontrivial(runner.Hash64(nb.Bytes, []byte{byte(flags), 'r'}))
 	}
@@ -490,6 +557,7 @@ func runReshaped(c *runner.Ctx, h *genfrag.History, b *genfrag.Built, flags mp4.
 		}
 		c.Sample(map[string]interface{}{"family": "reshaped", "fragments": strings.Join(ps, " "), "dec_flags": flags, "bytes": len(nb.Bytes)})
 	}
+	return nb, shapes
 }
 
 func orNone(s string) string {
@@ -539,9 +607,11 @@ func (e *env) oracle1(f *mp4.File) (partition, bool) {
 	fragNo := -1 // running index of fragments-with-moof = in-file fragment index
 	var part partition
 	ok := true
+	e.segStartGT = nil
 	for si, seg := range f.Segments {
 		var segFirst = -1
 		var frs []int
+		gtStart := -1
 		if seg.Styp != nil {
 			if stypSeen >= len(styps) {
 				e.viol("grouping-weak/styp-count", fmt.Sprintf("segment %d has a styp but the file holds only %d", si, len(styps)))
@@ -551,6 +621,7 @@ func (e *env) oracle1(f *mp4.File) (partition, bool) {
 				e.viol("grouping-weak/segment-startpos", fmt.Sprintf("segment %d starts with styp number %d at %d, StartPos says %d", si, stypSeen, styps[stypSeen].Start, seg.StartPos))
 				ok = false
 			}
+			gtStart = styps[stypSeen].Start
 			stypSeen++
 		}
 		for fi, fr := range seg.Fragments {
@@ -622,6 +693,10 @@ func (e *env) oracle1(f *mp4.File) (partition, bool) {
 			}
 		}
 		part = append(part, frs)
+		if gtStart < 0 {
+			gtStart = segFirst
+		}
+		e.segStartGT = append(e.segStartGT, gtStart)
 	}
 	if k != len(gt) {
 		e.viol("grouping-weak/missing-box", fmt.Sprintf("%d of the %d emsg/moof/mdat boxes of the file are in no fragment (first missing: %s at %d)", len(gt)-k, len(gt), gt[k].Type, gt[k].Start))
@@ -696,6 +771,20 @@ func (e *env) oracle1(f *mp4.File) (partition, bool) {
 			e.viol("grouping-strong/"+e.lay.strong, why)
 		} else {
 			e.c.Count("oracle1_strong_held", 1)
+		}
+		if strings.HasPrefix(e.lay.strong, "mfra") || e.lay.strong == "topsidx" {
+			// segment starts (not the first) whose delimiter points behind an emsg: the emsg in
+			// front of a tfra-addressed moof, or the emsg a sidx reference starts with
+			n := 0
+			for i := 1; i < len(want); i++ {
+				if fr := frags[want[i].frags[0]]; fr.Lead < fr.Moof {
+					n++
+				}
+			}
+			if n > 0 {
+				e.c.Count("oracle1_strong_"+e.lay.strong+"_segment_starts_with_emsg_before_the_moof", int64(n))
+				e.c.Count("oracle1_strong_"+e.lay.strong+"_files_with_emsg_at_a_later_segment_start", 1)
+			}
 		}
 	}
 	return part, true
@@ -937,23 +1026,38 @@ func (e *env) checkIndex(tag string, out []byte, f *mp4.File, part partition, ha
 		e.viol("sidx/"+tag+"/media-end", fmt.Sprintf("the last reference ends at %d, the media ends at %d", at, mediaEnd))
 		return
 	}
+	if e.checkTimes(tag, sx, part, nz, out) {
+		e.c.Count("oracle3_held:"+tag, 1)
+	}
+}
+
+// checkTimes is the time half of the index clause: timescale, one duration per
+// reference (= the summed sample durations of the reference track in that
+// segment, from the history) and the earliest presentation time. out, when not
+// nil, is the encoded output the index was read from: the durations are then
+// cross-checked against ref/frag's expansion of the referenced byte ranges.
+func (e *env) checkTimes(tag string, sx reffrag.Sidx, part partition, nz bool, out []byte) bool {
 	// durations and timescale of the reference track (ground truth)
 	ref := e.h.RefTrack()
 	frags := e.b.FragsInFile()
 	if sx.Timescale != ref.Timescale {
 		e.viol("sidx/"+tag+"/timescale", fmt.Sprintf("timescale %d, reference track %d has %d", sx.Timescale, ref.ID, ref.Timescale))
-		return
+		return false
 	}
 	// second ground truth: the independent expansion of the output bytes inside each referenced byte range
-	exp, xerr := reffrag.ExpandFile(out, nil)
-	if xerr == nil && (exp.Init == nil || exp.Init.ReferenceTrack() == nil || exp.Init.ReferenceTrack().ID != ref.ID) {
-		e.c.Inconclusive("oracle 3: the reference reader picks another reference track than the history")
-		return
+	var exp *reffrag.File
+	xerr := fmt.Errorf("no output bytes")
+	if out != nil {
+		exp, xerr = reffrag.ExpandFile(out, nil)
+		if xerr == nil && (exp.Init == nil || exp.Init.ReferenceTrack() == nil || exp.Init.ReferenceTrack().ID != ref.ID) {
+			e.c.Inconclusive("oracle 3: the reference reader picks another reference track than the history")
+			return false
+		}
+		if xerr != nil {
+			e.c.Count("oracle3_output_not_expandable_by_reference_reader", 1)
+		}
 	}
-	if xerr != nil {
-		e.c.Count("oracle3_output_not_expandable_by_reference_reader", 1)
-	}
-	at = sx.Anchor()
+	at := sx.Anchor()
 	for k, r := range sx.Refs {
 		var d uint64
 		for _, fi := range part[k] {
@@ -972,7 +1076,7 @@ func (e *env) checkIndex(tag string, out []byte, f *mp4.File, part partition, ha
 			}
 			if dx != d {
 				e.c.Inconclusive(fmt.Sprintf("oracle 3: history and reference reader disagree on the duration of segment %d", k))
-				return
+				return false
 			}
 			e.c.Count("oracle3_duration_ground_truths_agree", 1)
 		}
@@ -984,7 +1088,7 @@ func (e *env) checkIndex(tag string, out []byte, f *mp4.File, part partition, ha
 			e.keyFrags = part[k]
 			e.viol("sidx/"+tag+"/duration", fmt.Sprintf("reference %d: subsegment_duration %d, the samples of track %d in that segment sum to %d", k, r.Duration, ref.ID, d))
 			e.keyFrags = nil
-			return
+			return false
 		}
 	}
 	// EPT
@@ -994,7 +1098,7 @@ func (e *env) checkIndex(tag string, out []byte, f *mp4.File, part partition, ha
 		case !nz:
 			if sx.EarliestPresentationTime != 0 {
 				e.viol("sidx/"+tag+"/ept", fmt.Sprintf("earliest_presentation_time %d although zero was asked for", sx.EarliestPresentationTime))
-				return
+				return false
 			}
 		case len(ss) == 0 || int64(ss[0].DecodeTime)+int64(ss[0].Cto) < 0:
 			e.c.Count("oracle3_ept_not_compared", 1)
@@ -1003,11 +1107,11 @@ func (e *env) checkIndex(tag string, out []byte, f *mp4.File, part partition, ha
 				e.keyFrags, e.keyRefTrafs = part[0][:1], true
 				e.viol("sidx/"+tag+"/ept", fmt.Sprintf("earliest_presentation_time %d, first presentation time of track %d is %d", sx.EarliestPresentationTime, ref.ID, want))
 				e.keyFrags, e.keyRefTrafs = nil, false
-				return
+				return false
 			}
 		}
 	}
-	e.c.Count("oracle3_held:"+tag, 1)
+	return true
 }
 
 func (e *env) oracle3(f *mp4.File, part partition, add, nz bool) {
@@ -1114,6 +1218,12 @@ func (e *env) addSidxTool(part partition, nz bool) {
 	if som {
 		args = append(args, "-startSegOnMoof")
 	}
+	tag := "add-sidx-tool"
+	if e.removeEnc {
+		args = append(args, "-removeEnc")
+		tag = "add-sidx-tool-removeEnc"
+	}
+	e.c.Seen("add_sidx_tool_args", strings.Join(args, " "))
 	args = append(args, in, outp)
 	cmd := exec.Command(bin, args...)
 	var stderr bytes.Buffer
@@ -1135,12 +1245,12 @@ func (e *env) addSidxTool(part partition, nz bool) {
 	}
 	if rerr != nil {
 		if strings.Contains(stderr.String(), "goroutine ") || strings.Contains(stderr.String(), "panic:") {
-			e.viol("sidx/add-sidx-tool/crash", "add-sidx crashed: "+short(stderr.String()))
+			e.viol("sidx/"+tag+"/crash", "add-sidx crashed: "+short(stderr.String()))
 			return
 		}
 		if uerr == nil {
 			if _, err, _ := encodeFile(e.c, f, false, len(e.b.Bytes)); err == nil {
-				e.viol("sidx/add-sidx-tool/exit", "add-sidx fails although the same library calls succeed in process: "+strings.TrimSpace(stderr.String()))
+				e.viol("sidx/"+tag+"/exit", "add-sidx fails although the same library calls succeed in process: "+strings.TrimSpace(stderr.String()))
 				return
 			}
 		}
@@ -1153,5 +1263,8 @@ func (e *env) addSidxTool(part partition, nz bool) {
 		return
 	}
 	e.c.Count("add_sidx_tool_runs", 1)
-	e.checkIndex("add-sidx-tool", out, f, part, had, true, nz)
+	if e.removeEnc {
+		e.observeRemoveEnc(out)
+	}
+	e.checkIndex(tag, out, f, part, had, true, nz)
 }
